@@ -212,6 +212,26 @@ def spec_reach(edges, start):
     return seen
 
 
+def skel_other(b):
+    """does a skeleton body contain an operator outside the documented fragment?"""
+    if isinstance(b, str) or "r" in b:
+        return False
+    if "o" in b:
+        return True
+    return any(skel_other(x) for x in b.get("s", b.get("c", [])))
+
+
+def abstract_nodes_documented(t, obs):
+    """every abstract rule's node of the parse tree belongs to a rule whose resolved body is documented"""
+    if "t" in t:
+        return True
+    if "n" in t and obs["kinds"].get(t["n"]) == "abstract":
+        i = obs["names"].index(t["n"])
+        if skel_other(obs["skeleton"][i]["body"]):
+            return False
+    return all(abstract_nodes_documented(c, obs) for c in t["k"])
+
+
 def flat(t):
     """the matched text below a node"""
     if "t" in t:
@@ -921,6 +941,15 @@ class Prop(Check):
         "RuleTypes.C03_result_first_nonmatch",
         "RuleTypes.C03_result_concat_terminals",
         "RuleTypes.C03_result_single_child",
+        "RuleTypes.C03_derives_iff",
+        "RuleTypes.C03_tree_iff",
+        "RuleTypes.C03_children_alternative",
+        "RuleTypes.C03_children_firstNM",
+        "RuleTypes.C03_result_alternative",
+        "RuleTypes.C03_result_instance",
+        "RuleTypes.C03_inh_lower",
+        "RuleTypes.C03_inh_upper",
+        "RuleTypes.C03_isinstance_bounds",
         "RuleTypes.C03_result_all_match_partial",
         "RuleTypes.C03_result_all_match_full_false",
         "RuleTypes.C03_pinned_overapprox_false",
@@ -1179,6 +1208,16 @@ class Prop(Check):
             return {"o": names[v["o"]], "a": [[a, [names_of(x) for x in vs]] for a, vs in v["a"]]}
 
         oks = [r for r in obs["texts"] if r.get("outcome") == "ok"]
+        if len(out.get("wf", [])) != len(oks) or len(out["vals"]) != len(oks):
+            return "model answer: one value and one tree verdict per accepted text expected"
+        for r, wf in zip(oks, out["wf"]):
+            # Arpeggio's tree against the grammar: the children of every abstract rule's node are those of one
+            # alternative of the rule's body (`Derives`, the hypothesis of C03_result_instance / _alternative);
+            # bodies with ? * + # or predicates are outside the relation
+            want = abstract_nodes_documented(r["tree"], obs)
+            if wf != want:
+                return (f"text {r['text']!r}: parse tree {'derives' if wf else 'does not derive'} from the rule bodies "
+                        f"in the model, expected {want}")
         for r, mv in zip(oks, out["vals"]):
             mv = names_of(mv)
             d = val_diff(mv, r["val"])
@@ -1226,6 +1265,15 @@ class Prop(Check):
             d = val_diff(want, r["val"])
             if d:
                 return f"text {r['text']!r}: documented result differs: {d}"
+            # the value of the root rule's node, when an object, belongs to a rule reachable from the root rule
+            if "o" in r["val"]:
+                root = user[0]
+                reach = spec_reach(edges, root)
+                if reach is not None and r["val"]["o"] not in reach:
+                    return (f"text {r['text']!r}: the model is a {r['val']['o']} object, a rule not reachable from "
+                            f"the root rule {root} through abstract-rule alternatives")
+                if reach is not None and r["objs"] and r["objs"][0][1].get(root) is not True:
+                    return f"text {r['text']!r}: the model is not a textx_isinstance of the root rule {root}"
             # isinstance
             for cls, m in r["objs"]:
                 for cn, b in m.items():
